@@ -313,8 +313,8 @@ def render_class(c, out, ctor_return_this=False):
     out.append("%sclass %s%s {" % (head, name, ext))
     for f in c["fields"]:
         init = "" if f["init"]["k"] == "none" else " = " + rexpr(f["init"])
-        out.append("  %s %s%s%s %s%s;" % (f.get("vis", "public"), "static " if f["static"] else "", "final " if f.get("final") else "",
-                                           rtype(f["t"]), f["n"], init))
+        out.append("  %s%s %s%s%s %s%s;" % ("@tracked " if f.get("tracked") else "", f.get("vis", "public"), "static " if f["static"] else "",
+                                             "final " if f.get("final") else "", rtype(f["t"]), f["n"], init))
     selft = name
     for ct in c["ctors"]:
         if ct.get("default"):
@@ -442,7 +442,14 @@ def monomorphise(prog):
 
 
 def to_tlc(prog):
-    return monomorphise(prog)
+    """what the TLC reference interpreters see: generics expanded, qubit-typed fields dropped (a qubit nobody operates on
+    is not observable in the echo output the reference predicts)"""
+    p = monomorphise(prog)
+    if any(f["t"].get("p") == "qubit" for c in p["classes"] for f in c["fields"]):
+        p = copy.deepcopy(p)
+        for c in p["classes"]:
+            c["fields"] = [f for f in c["fields"] if f["t"].get("p") != "qubit"]
+    return p
 
 
 def dumps(prog):
